@@ -792,6 +792,8 @@ impl NormalizedAddress {
             Lookup(T),
             #[cfg(test)]
             Hardcoded(std::vec::IntoIter<SocketAddr>),
+            #[cfg(pendulum_project_ntpd_rs_verif)]
+            Verif(std::vec::IntoIter<SocketAddr>),
         }
 
         impl<T: Iterator<Item = SocketAddr>> Iterator for Either<T> {
@@ -802,6 +804,8 @@ impl NormalizedAddress {
                     Either::Lookup(lookup) => lookup.next(),
                     #[cfg(test)]
                     Either::Hardcoded(hardcoded) => hardcoded.next(),
+                    #[cfg(pendulum_project_ntpd_rs_verif)]
+                    Either::Verif(injected) => injected.next(),
                 }
             }
         }
@@ -809,6 +813,11 @@ impl NormalizedAddress {
         #[cfg(test)]
         if let Some(hardcoded_dns_resolve) = &self.hardcoded_dns_resolve {
             return Ok(Either::Hardcoded(hardcoded_dns_resolve.lookup_host()));
+        }
+
+        #[cfg(pendulum_project_ntpd_rs_verif)]
+        if let Some(answer) = crate::daemon::verif::dns_lookup(&self.server_name, self.port) {
+            return answer.map(|addrs| Either::Verif(addrs.into_iter()));
         }
 
         tokio::net::lookup_host((self.server_name.as_str(), self.port))
